@@ -709,45 +709,54 @@ func (e *enc) mapLoopsToSyntax() {
 		}
 		return true
 	})
-	innermost := func(p token.Pos) int {
-		best := -1
-		for i, s := range stmts {
-			if s.pos <= p && p < s.end && (best < 0 || s.pos >= stmts[best].pos) {
-				best = i
+	// match the two loop forests in preorder: natural loops nest by block-set inclusion, siblings are ordered by the first
+	// position of a non-control instruction anywhere inside them; for/range statements in source order are the preorder of
+	// their nesting
+	sort.Slice(stmts, func(a, b int) bool { return stmts[a].pos < stmts[b].pos })
+	minPos := func(li *loopInfo) token.Pos {
+		best := token.Pos(1 << 40)
+		for b := range li.blocks {
+			for _, in := range b.Instrs {
+				switch in.(type) {
+				case *ssa.If, *ssa.Jump, *ssa.Phi, *ssa.DebugRef:
+					continue
+				}
+				if p := in.Pos(); p.IsValid() && p < best {
+					best = p
+				}
 			}
 		}
 		return best
 	}
+	parent := map[*ssa.BasicBlock]*ssa.BasicBlock{}
 	for h, li := range e.loops {
-		own := map[*ssa.BasicBlock]bool{}
-		for b := range li.blocks {
-			own[b] = true
-		}
 		for h2, l2 := range e.loops {
-			if h2 != h && li.blocks[h2] {
-				for b := range l2.blocks {
-					delete(own, b)
+			if h2 != h && l2.blocks[h] && len(l2.blocks) > len(li.blocks) {
+				if p, ok := parent[h]; !ok || len(e.loops[p].blocks) > len(l2.blocks) {
+					parent[h] = h2
 				}
 			}
 		}
-		votes := map[int]int{}
-		for b := range own {
-			for _, in := range b.Instrs {
-				if p := in.Pos(); p.IsValid() {
-					if k := innermost(p); k >= 0 {
-						votes[k]++
-					}
-				}
+	}
+	var order []*ssa.BasicBlock
+	var visit func(p *ssa.BasicBlock)
+	visit = func(p *ssa.BasicBlock) {
+		var kids []*ssa.BasicBlock
+		for h := range e.loops {
+			if q, ok := parent[h]; (p == nil && !ok) || (ok && q == p && p != nil) {
+				kids = append(kids, h)
 			}
 		}
-		best, bv := -1, 0
-		for k, v := range votes {
-			if v > bv || (v == bv && best >= 0 && stmts[k].pos > stmts[best].pos) {
-				best, bv = k, v
-			}
+		sort.Slice(kids, func(a, b int) bool { return minPos(e.loops[kids[a]]) < minPos(e.loops[kids[b]]) })
+		for _, k := range kids {
+			order = append(order, k)
+			visit(k)
 		}
-		if best >= 0 {
-			e.loopStmt[h] = stmts[best].pos
+	}
+	visit(nil)
+	if len(order) == len(stmts) {
+		for i, h := range order {
+			e.loopStmt[h] = stmts[i].pos
 		}
 	}
 }
